@@ -186,3 +186,33 @@ pub fn bus_input_setters_frame() {
     assert!(same_bus(&fixed, &pre), "setter frame");
     kani::cover!(which == 3, "ff");
 }
+
+/// The `Machine`-level input setters reach exactly the corresponding bus register (C10: "input
+/// registers set from outside"), and nothing else.
+#[cfg_attr(kani, kani::proof)]
+pub fn machine_input_setters_delegate() {
+    let mut m = any_machine();
+    let pre = m.clone();
+    let which: u8 = kani::any();
+    kani::assume(which < 4);
+    let byte: u8 = kani::any();
+    match which {
+        0 => m.set_input_fc(byte),
+        1 => m.set_input_fd(byte),
+        2 => m.set_input_fe(byte),
+        _ => m.set_input_ff(byte),
+    }
+    assert!(m.bus().read(0xFC + which) == byte, "value visible at 0xFC + n");
+    let mut expect = pre.bus().clone();
+    match which {
+        0 => expect.input_fc(byte),
+        1 => expect.input_fd(byte),
+        2 => expect.input_fe(byte),
+        _ => expect.input_ff(byte),
+    }
+    assert!(same_bus_regs(m.bus(), &expect) && same_board(m.bus().board(), expect.board()), "only that input register changes");
+    assert!(same_core(&m, &pre) && same_limits(&m, &pre), "CPU untouched");
+    let i = any_ram_index();
+    assert!(m.bus().memory()[i] == pre.bus().memory()[i], "RAM untouched");
+    kani::cover!(which == 1, "fd");
+}
